@@ -182,3 +182,39 @@ def bits2bytes_msb(bits):
         if b:
             out[i >> 3] |= 0x80 >> (i & 7)
     return bytes(out)
+
+
+# ---- sibling workloads -------------------------------------------------------------------------------
+def siblings(ctx, rng, monitor, specs, late=None, **det):
+    """Objects of one family with *different* configurations alive at the same time.
+    specs: list of (name, constructor, [(label, use(obj) -> observed, expected)]).  All objects are constructed first
+    (in random order), then every use of every object is executed in a random global order and compared with its
+    expected value.  `late`: optional extra spec constructed half-way (an older object must not notice a newcomer)."""
+    order = list(range(len(specs)))
+    rng.shuffle(order)
+    objs = {}
+    log = []
+    for i in order:
+        name, new, uses = specs[i]
+        o = call(new)
+        objs[i] = o
+        log.append('new ' + name)
+    todo = [(i, u) for i in range(len(specs)) for u in range(len(specs[i][2]))]
+    rng.shuffle(todo)
+    half = len(todo) // 2
+    for n, (i, u) in enumerate(todo):
+        if late is not None and n == half:
+            lname, lnew, luses = late
+            lo = call(lnew)
+            log.append('new ' + lname)
+            for label, use, want in luses:
+                got = lo if is_exc(lo) else call(use, lo)
+                ctx.eq(monitor, got, want, sibling=lname, use=label, history=list(log[-12:]), **det)
+                log.append('%s.%s' % (lname, label))
+        name, new, uses = specs[i]
+        label, use, want = uses[u]
+        o = objs[i]
+        got = o if is_exc(o) else call(use, o)
+        ctx.eq(monitor, got, want, sibling=name, use=label, history=list(log[-12:]), **det)
+        log.append('%s.%s' % (name, label))
+    return log
